@@ -154,7 +154,9 @@ CLAIMED = {
                 text="The real FGD.export into separate chunks, the real FGD.parse_file through a fake File, field-by-field comparison (with the documented "
                      "I/O type decay) and second export == first, for symbolic leaves (display name, default, description, choice values/labels, tags; "
                      "length <= 2, plus a numeric-looking sub-domain for defaults), symbolic custom_syntax/label_spawnflags/readonly/report, types/kinds/"
-                     "flag bits by index; the binary block format (ent_serialise/ent_unserialise) with symbolic bits and indices; every sequence of <= 3 (4) "
+                     "flag bits by index; every helper kind (35 + unknown) through parse/export and through the FGD text path with default and "
+                     "non-default optional arguments; the binary block format (kv/iodef/ent serialise/unserialise) with solver-chosen spawnflag bit "
+                     "indices 0..31, default bits and all 43 value types; every sequence of <= 3 (4) "
                      "get_ent queries on a harness-built 3-block database against the eager load. The complete bundled database is only a concrete native "
                      "supplement (one input), not solver-decided.",
                 note="Trusted: CrossHair, z3, binio models. The 1000-character long-string boundary uses concrete content (a symbolic character inside a "
